@@ -116,8 +116,9 @@ WideOk(e, md) ==
       m == Num(e.m)
       n == IF op \in {"i256_div_mod_floor", "i128_mul_div_ten_pow_rounded"} THEN BMul(Num(e.a), Num(e.b)) ELSE BMul(Num(e.a), BPow10(e.k))
       mm == IF op = "i128_mul_div_ten_pow_rounded" THEN BPow10(e.k) ELSE m
-  IN IF op \in {"i256_div_mod_floor", "i128_shifted_div_mod_floor"} THEN S!WideOk(n, mm, some, q, r)
-     ELSE S!WideRoundedOk(IF mm.s < 0 THEN BNeg(n) ELSE n, BAbs(mm), e.mode, some, q)
+  IN /\ "panicked" \notin DOMAIN e          \* the primitives report an unrepresentable quotient by None, never by a panic
+     /\ IF op \in {"i256_div_mod_floor", "i128_shifted_div_mod_floor"} THEN S!WideOk(n, mm, some, q, r)
+        ELSE S!WideRoundedOk(IF mm.s < 0 THEN BNeg(n) ELSE n, BAbs(mm), e.mode, some, q)
 ParseOut(j) == IF j.k = "ok" THEN [k |-> "ok", c |-> Num(j), f |-> j.f]
                ELSE IF j.k = "err" THEN [k |-> IF j.e = "Empty" THEN "empty" ELSE "err", c |-> Z0, f |-> 0]
                ELSE [k |-> "panic", c |-> Z0, f |-> 0]
